@@ -29,6 +29,9 @@ DEFS = {(0x00, None), (0x02, 'required'), (0x03, None), (0x04, 'dependencies'), 
         (0x84, 'valuesrules'), (0x8f, 'items'), (0x90, None), (0x91, 'noneof'), (0x92, 'oneof'), (0x93, 'anyof'),
         (0x94, 'allof')}
 MISSING = object()
+# the errors of the normalization half (coercion / renaming failed, read-only field, default setter failed); the code's own
+# `is_normalization_error` tests `code & 0x60` and is true for every code with bit 5 or bit 6 (BAD_TYPE, MIN_VALUE, ...)
+NORMALIZATION_CODES = (0x61, 0x62, 0x63, 0x64)
 
 
 def walk_doc(doc, path):
@@ -63,7 +66,7 @@ def resolve_schema_path(v, schema, path, au):
     while i < len(path):
         k = path[i]
         if isinstance(cur, str):
-            cur = (schema_registry.get(cur) if mode == 'fields' else rules_set_registry.get(cur))
+            cur = (v.schema_registry.get(cur) if mode == 'fields' else v.rules_set_registry.get(cur))
             if cur is None:
                 return MISSING
             continue
@@ -87,8 +90,8 @@ def resolve_schema_path(v, schema, path, au):
         nxt = rules[k]
         i += 1
         if k == 'schema' and i < len(path):
-            if isinstance(nxt, str) and schema_registry.get(nxt) is not None:
-                nxt = schema_registry.get(nxt)
+            if isinstance(nxt, str) and v.schema_registry.get(nxt) is not None:
+                nxt = v.schema_registry.get(nxt)
             # mapping schema (field mapping) or sequence schema (rule set)?
             looks_fields = isinstance(nxt, Mapping) and all(isinstance(x, (Mapping, str)) for x in nxt.values()) \
                 and not (len(nxt) > 0 and set(nxt) <= set(v.rules))
@@ -129,7 +132,7 @@ def check_error(v, e, parent, case, top_doc):
             return 'group error %#x does not carry its child errors' % e.code
     elif e.info and isinstance(e.info[0], list) and e.info[0] and isinstance(e.info[0][0], cerr.ValidationError):
         return 'non-group error %#x carries child errors' % e.code
-    if e.is_normalization_error:
+    if e.code in NORMALIZATION_CODES:
         return None
     # value
     under_keys = isinstance(e.schema_path, tuple) and 'keysrules' in e.schema_path
@@ -225,7 +228,14 @@ def run(ctx, n):
         for i, prof, case, g in cases.stream(ctx.seed, n, profiles):
             if cases.accepted(case) is not True:
                 continue
-            jcase = real.enc_case(case)
+            if i % 3 == 1:
+                # what an error points to is found through the registries of the validator that reports it
+                import random
+                refd = cases.with_refs(case, random.Random(ctx.seed * 67 + i), decoys=(i % 2 == 0))
+                if refd is not None and cases.accepted(refd) is True:
+                    case = refd
+                    ctx.dist('registries', 'bound to the validator' + (', decoys in the module-level ones' if case['decoys'] else ''))
+            jcase = real.enc_case({k: v for k, v in case.items() if k != 'inline_schema'})
             k = oracle(ctx, case, jcase, normalize=(i % 2 == 0))
             st, detail = c01.compare(ctx, drv, case)
             if st == 'mismatch':
@@ -243,3 +253,9 @@ def search(ctx, n):
         oracle(ctx, case, real.enc_case(case), normalize=(i % 2 == 0))
         if len(ctx.failures) > before:
             return
+        import random
+        refd = cases.with_refs(case, random.Random(ctx.seed * 67 + i), decoys=(i % 2 == 0))
+        if refd is not None and cases.accepted(refd) is True:
+            oracle(ctx, refd, real.enc_case({k: v for k, v in refd.items() if k != 'inline_schema'}), normalize=(i % 2 == 1))
+            if len(ctx.failures) > before:
+                return
